@@ -24,7 +24,7 @@ func init() {
 		Level:    "fault_enumeration",
 		Rule: "disconnect points enumerated over generated histories: a victim connection runs a seeded history (fids attached, walked, opened, created, clunked) and is cut after every prefix length, " +
 			"with 0..4 requests of mixed types (read, stat, clunk, remove, walk to a new fid, attach, open) held inside the implementation at that moment and released afterwards in every order " +
-			"(all permutations up to 3, seeded beyond); cut kinds: client closes, client resets, the server's write fails, disconnect in the middle of a frame; Maxpend in {0, 4}; a bystander " +
+			"(all permutations up to 3, seeded beyond); cut kinds: client closes, client resets, the server's write fails, disconnect in the middle of a frame, client stops reading (the server's writer blocks with answered requests queued behind it) and then goes away; Maxpend in {0, 4}; a bystander " +
 			"connection with open fids stays up. Oracle: exactly one ConnClosed for the victim, every fid object of the victim reported destroyed exactly once, no goroutine with a go9p frame created " +
 			"for the victim remains once the held requests returned (stable across two dumps), bystander undisturbed. A Unix-file-server variant checks /proc/self/fd for descriptors left in the tree. " +
 			"distinct = (history seed, prefix length, held request kinds, release order, cut kind, Maxpend)",
@@ -39,7 +39,7 @@ func init() {
 }
 
 var c11HeldKinds = []string{"read", "stat", "clunk", "remove", "walknew", "attach", "open", "create"}
-var c11Cuts = []string{"close", "reset", "writefail", "midframe"}
+var c11Cuts = []string{"close", "reset", "writefail", "midframe", "unread"}
 
 func c11Cases(tier string, seed int64) []core.Case {
 	var cases []core.Case
@@ -361,6 +361,21 @@ func c11One(res *core.Result, seed int64, hi, maxpend int, dotu bool, cut, nheld
 		_ = v.SendRaw([]byte{23, 0, 0, 0, wire.Tread, 1, 2, 0, 0})
 		time.Sleep(200 * time.Microsecond)
 		v.Hangup()
+	case "unread":
+		// the client stops reading: the server's writer blocks in its transport write with answered requests
+		// queueing behind it; then the client goes away
+		v.PauseReads(true)
+		v.Cli.Cap = 40
+		var ms []*wire.Msg
+		for i := 0; i < 8; i++ {
+			tag++
+			ms = append(ms, &wire.Msg{Type: wire.Tstat, Tag: tag, Fid: 99}) // answered by the framework (unknown fid)
+		}
+		_ = v.Send(ms...)
+		waitFor(time.Second, func() bool { return v.Cli.Queued() >= 40 })
+		time.Sleep(300 * time.Microsecond)
+		v.Hangup()
+		v.PauseReads(false)
 	}
 	// release the held requests: every order over the cases of one history (permutation index from the cut point)
 	if len(helds) > 0 {
